@@ -102,6 +102,15 @@ def handle (op : String) (args : List String) : Option String :=
       let (bs, s') := Halton.drawMany (Halton.rPoint Float.ofNat (fun x => x - Float.floor x) start alphas) 0 idx sizes
       pure (" | ".intercalate (bs.map (fun b => joinSp (b.map fl))) ++ s!" | cursor {s'}")
   | "cal.run" => Drv.Cal.handle args
+  | "ckpt.saves" => do
+      let snaps ← run (list (do
+        let p ← nat; let rows ← list nat; let ser ← list nat
+        pure ({ params := p, sched := p, loss := p, rows := rows, series := ser } : Checkpoint.Snap Nat Nat Nat Nat Nat))) args
+      let cd : Checkpoint.Codec Nat Nat Nat Nat Nat Nat Nat Nat Nat Nat := ⟨id, some, id, some, id, some, id, some, id, some⟩
+      let f := snaps.foldl (Checkpoint.save cd) Checkpoint.Folder.empty
+      match Checkpoint.load cd f with
+      | none => pure "load-error"
+      | some s => pure s!"params {s.params} rows {showNats s.rows} series {showNats s.series}"
   | "ss.check" => do
       let (b, p) ← run (do let b ← list (list flt); let p ← list flt; pure (b, p)) args
       match SearchSpace.checkBounds (0.0 : Float) b p with
